@@ -683,6 +683,9 @@ class CallMixin:
 
     def call_builtin(self, name, args, kwargs, st, fr, node):
         short = name.split('.')[-1]
+        if short in self.contract.externals and '.' not in short and short in ('sum', 'zeros', 'ones', 'empty', 'max', 'min', 'abs', 'exp', 'sqrt', 'log10'):
+            if short not in ('max', 'min', 'abs', 'exp', 'sqrt', 'log10') or (args and isinstance(args[0], Obj)):
+                return self.apply_external(self.contract.externals[short], name, None, args, kwargs, st, fr, node)
         if short in ('sqrt', 'exp', 'log', 'log10', 'sin', 'cos', 'tan', 'erf', 'fabs', 'floor', 'ceil', 'atan2', 'fmod',
                      'pow', 'asin', 'acos', 'atan', 'sinh', 'cosh', 'tanh', 'hypot', 'isnan', 'isinf', 'isfinite', 'trunc',
                      'copysign', 'absolute', 'gamma', 'cbrt') and name not in ('os.path.exp',):
